@@ -4,6 +4,7 @@
 package main
 
 import (
+	"regexp"
 	"bufio"
 	"encoding/json"
 	"fmt"
@@ -460,10 +461,25 @@ func checkMain(id, tier string) int {
 	}
 	nReplay := 0
 	knownSeen := map[string]string{}
+	var only *regexp.Regexp
+	if s := os.Getenv("VERIF_ONLY"); s != "" {
+		only = regexp.MustCompile(s)
+		fmt.Printf("PARTIAL: only runs matching %q are explored; evidence is not written\n", s)
+	}
 	for ui, unit := range spec.Units {
 		var runs []Run
 		for _, r := range unit.Runs {
 			runs = append(runs, r.expand(tier)...)
+		}
+		if only != nil {
+			// developer aid: explore only the matching runs; no evidence is written for a partial check
+			var sel []Run
+			for _, r := range runs {
+				if only.MatchString(r.Name) {
+					sel = append(sel, r)
+				}
+			}
+			runs = sel
 		}
 		if len(runs) == 0 {
 			continue
@@ -651,7 +667,9 @@ func checkMain(id, tier string) int {
 		}
 	}
 	ev.finish(time.Since(t0).Seconds())
-	if err := ev.write(); err != nil {
+	if only != nil {
+		// partial developer run
+	} else if err := ev.write(); err != nil {
 		fmt.Println("EVIDENCE-WRITE-FAILED:", err)
 		return 2
 	}
